@@ -44,8 +44,8 @@ Two parts, both on the live ``posix.Registry`` / ``asset.Directory`` code (``vol
       crash-listing-neither-before-nor-after            anything else
 
     Sizes: quick = 5 directed + 13 random histories (history part), all crash points of every publish / train of the
-    directed and the first 2 random ones; thorough = 160 random histories, crash part for the first 20, a new-process
-    reader for the first 30.  The crash points of one operation are dealt to the shards in chunks (load balance); a
+    directed and the first 2 random ones; thorough = 160 random histories, crash part for the first 16, a new-process
+    reader for the first 12.  The crash points of one operation are dealt to the shards in chunks (load balance); a
     history is cut short after its first history-part violation (model and registry have diverged).
 
 Oracle relaxations (the property does not say more): leftovers below ``.stage`` and unlisted files / directories (a
@@ -74,7 +74,7 @@ RULE = (
     'latest/explicit generation with 0-4 states of 0..20000 bytes, read latest/explicit}, each run against posix.Registry (fresh reader '
     'after every step) and volatile.Registry, a third of them ending with an operation that names a release by an equal version of '
     'another normal form, plus five directed minimal histories; crash part: for every publish and every train (dumps + commit) of the '
-    'directed and the first 2 (quick) / 20 (thorough) random posix histories ALL crash points 1..N (N counted by a dry run) are executed, each in a forked child on a '
+    'directed and the first 2 (quick) / 16 (thorough) random posix histories ALL crash points 1..N (N counted by a dry run) are executed, each in a forked child on a '
     'copy of the registry. evaluations = history steps checked + crash points checked. distinct = distinct (registry kind, operation '
     'shape, model state shape) per step and distinct (operation shape, model state shape, crash event descriptor) per crash point; '
     'non-trivial = the step is a publish/train/read on a non-empty registry or a crash point of an operation that mutates the registry'
@@ -124,14 +124,19 @@ def histories(tier):
 
 
 def floors(tier):
-    scale = 1 if tier == 'quick' else 8
+    if tier == 'quick':
+        return {
+            'evaluations': 1000, 'history_steps_checked': 100, 'volatile_steps_checked': 100, 'views_compared': 100,
+            'crash_points_checked': 700, 'crash_ops_publish_directory': 5, 'crash_ops_publish_zipfile': 5, 'crash_ops_train': 10,
+            'dry_runs_checked': 25, 'publish_accepted_checked': 20, 'publish_rejected_checked': 8, 'rejected_tree_compared': 8,
+            'train_checked': 30, 'read_checked': 5, 'crash_outcome_before': 300, 'earlier_files_compared': 1000,
+        }
     return {
-        'evaluations': 1000 * scale, 'history_steps_checked': 100 * scale, 'volatile_steps_checked': 100 * scale,
-        'views_compared': 100 * scale, 'crash_points_checked': 700 * scale, 'crash_ops_publish_directory': 5 * scale,
-        'crash_ops_publish_zipfile': 5 * scale, 'crash_ops_train': 10 * scale, 'dry_runs_checked': 25 * scale,
-        'publish_accepted_checked': 20 * scale, 'publish_rejected_checked': 8 * scale, 'rejected_tree_compared': 8 * scale,
-        'train_checked': 30 * scale, 'read_checked': 5 * scale, 'crash_outcome_before': 300 * scale,
-        'earlier_files_compared': 1000 * scale,
+        'evaluations': 8000, 'history_steps_checked': 1500, 'volatile_steps_checked': 1500, 'views_compared': 1500,
+        'crash_points_checked': 3500, 'crash_ops_publish_directory': 25, 'crash_ops_publish_zipfile': 20, 'crash_ops_train': 60,
+        'dry_runs_checked': 150, 'publish_accepted_checked': 300, 'publish_rejected_checked': 150, 'rejected_tree_compared': 150,
+        'train_checked': 500, 'read_checked': 150, 'crash_outcome_before': 1500, 'earlier_files_compared': 20000,
+        'reader_process_views_compared': 1000,
     }
 
 
@@ -244,6 +249,16 @@ def diff(expected, actual, path=()):
             yield from diff(left, right, path + (index,))
     elif expected != actual:
         yield path, expected, actual
+
+
+def error_types(view):
+    """View with error texts reduced to the exception type (the wording of an import error depends on what else the process
+    has imported before)."""
+    if isinstance(view, dict):
+        return {k: (v.split(':')[0] if k == 'error' and isinstance(v, str) else error_types(v)) for k, v in view.items()}
+    if isinstance(view, list):
+        return [error_types(v) for v in view]
+    return view
 
 
 LEVELS = {'projects', 'releases', 'generations', 'package', 'tag', 'states', 'listing', 'latest', 'files', 'manifest', 'kind', 'sha',
@@ -396,7 +411,7 @@ def build_package(srcdir, op):
         staging = os.path.join(srcdir, label, 'content')
         os.makedirs(staging)
         shutil.copytree(tree / 'vproj', os.path.join(staging, 'vproj'))
-        path = os.path.join(srcdir, label, f"{op['project']}-{op['payload']}.4ml")
+        path = os.path.join(srcdir, label, f"archive-{op['payload']}.4ml")
         prj.Package.create(staging, prj.Manifest(op['project'], op['version'], 'vproj'), path)
     return str(path), c05_view.package_files(path)
 
@@ -490,8 +505,9 @@ class Reader:
             self.ctx.count('reader_processes')
             for root, (view, tree), rview, rtree in zip(roots, local, remote['views'], remote['trees']):
                 self.ctx.count('reader_process_views_compared')
-                if json.loads(json.dumps(view)) != rview or tree != rtree:
-                    first = next(iter(diff(json.loads(json.dumps(view)), rview)), None)
+                mine, theirs = error_types(json.loads(json.dumps(view))), error_types(rview)
+                if mine != theirs or tree != rtree:
+                    first = next(iter(diff(mine, theirs)), None)
                     self.ctx.violation('new-process-reader-differs-from-cleared-cache-reader',
                                        f'a new process and an in-process fresh reader disagree on {root}: {first}',
                                        {'root': str(root), 'difference': repr(first)[:500]})
@@ -577,14 +593,17 @@ class History:
             raw = self.ctx.counters.get('violations_raw', 0)
             if self.check:
                 self.judge(index, op, result, files, before_model)
+                raw = self.ctx.counters.get('violations_raw', 0) - raw
             elif 'raised' not in result or op['op'] != 'publish' or self.model.accepts(op['project'], op['version']):
                 advance(self.model, op, files, result)
             observed = self.reader.read(([self.root] if self.check else []) + [c[1] for c in crashed])
             if self.check:
                 (view, tree), observed = observed[0], observed[1:]
                 self.last = (view, tree)
+                mark = self.ctx.counters.get('violations_raw', 0)
                 self.step_check(index, op, result, view, tree, before_tree, before_full)
-            broken = self.ctx.counters.get('violations_raw', 0) > raw
+                raw += self.ctx.counters.get('violations_raw', 0) - mark
+            broken = self.check and raw > 0 and index + 1 < len(self.ops)
             self.settle(index, op, [c + o for c, o in zip(crashed, observed)], before_view, before_tree, read=False)
             if broken:  # model and registry have diverged: what follows would only repeat the same difference
                 self.ctx.count('histories_cut_short')
@@ -939,12 +958,12 @@ def estimated_chunks(op):
     return -(-estimate // CHUNK)
 
 
-PROCESS_READER_HISTORIES = 30  # thorough: random histories whose every read is repeated by a brand-new python process
+PROCESS_READER_HISTORIES = 12  # thorough: random histories whose every read is repeated by a brand-new python process
 
 
 def crash_histories(tier):
     """Number of random histories whose operations get their crash points enumerated (the directed ones always do)."""
-    return 2 if tier == 'quick' else 20
+    return 2 if tier == 'quick' else 16
 
 
 def run(ctx):
